@@ -7,12 +7,16 @@
 (* may be descheduled between any two of them.  The per-connection lock is *)
 (* taken before the first write and released after the flush.              *)
 (*   FrameLockHeld = FALSE is the weakened spec (adversarial schedules).   *)
+(* A write hands a buffer to the kernel, which may take only part of it    *)
+(* (socket buffer full: big frames, slow reader); the writer has to go on  *)
+(* until everything is out.  WritesWhole = FALSE is the weakened spec in   *)
+(* which an operation may return after a short write.                      *)
 (*                                                                         *)
 (* The wire is a sequence of tokens <<task, k, part>>; a frame is intact   *)
 (* when its parts 1..Parts(k) are adjacent and in order.                   *)
 (***************************************************************************)
 EXTENDS Integers, Sequences, FiniteSets, TLC
-CONSTANTS Tasks, NOps, PartsOf, FrameLockHeld, Connected
+CONSTANTS Tasks, NOps, PartsOf, FrameLockHeld, Connected, WritesWhole
 VARIABLES lock, pc, k, wire, hist
 vars == <<lock, pc, k, wire, hist>>
 None == 0
@@ -31,7 +35,10 @@ Write(t) == /\ pc[t] # 0 /\ (IF pc[t] = -1 THEN 0 ELSE pc[t]) < Parts(t)
             /\ hist' = Append(hist, t) /\ UNCHANGED <<lock, k>>
 End(t) == /\ pc[t] = Parts(t) /\ pc' = [pc EXCEPT ![t] = 0] /\ k' = [k EXCEPT ![t] = @ + 1]
           /\ lock' = (IF lock = t THEN None ELSE lock) /\ hist' = Append(hist, t) /\ UNCHANGED wire
-Next == \E t \in Tasks : Begin(t) \/ Refuse(t) \/ Write(t) \/ End(t)
+\* weakened: the operation returns although only the first parts of its frame went out
+ShortWrite(t) == /\ ~WritesWhole /\ pc[t] >= 1 /\ pc[t] < Parts(t) /\ pc' = [pc EXCEPT ![t] = 0] /\ k' = [k EXCEPT ![t] = @ + 1]
+                 /\ lock' = (IF lock = t THEN None ELSE lock) /\ hist' = Append(hist, t) /\ UNCHANGED wire
+Next == \E t \in Tasks : Begin(t) \/ Refuse(t) \/ Write(t) \/ End(t) \/ ShortWrite(t)
 Spec == Init /\ [][Next]_vars
 \* ---- C07
 \* every part on the wire continues the frame of the part before it, or starts a new frame after a finished one
